@@ -15,19 +15,19 @@ HOOK_COMMITS = subprocess.run(
 
 P = {
  "C01": dict(engine="DOC", technique="runtime monitor: independent XML reference reader vs loaded model + load/serialize fixed-point oracle on generated documents",
-   text="Every generated document (whole-specification documents for all 21 versions, per-type micro documents with value classes, random trees with syntactic variation, lenient documents with injected defects) is read by an independent reference XML reader and compared with the loaded model; load-serialize-load-serialize must reach a fixed point. Held on the executions listed in the evidence.",
+   text="Every generated document (whole-specification documents for all 21 versions, per-type micro documents with value classes, random trees with syntactic variation, lenient documents with injected defects) is read by an independent reference XML reader and compared with the loaded model; load-serialize-load-serialize must reach a fixed point. Held on the executions listed in the evidence. Thorough repeats the quick workload in an AddressSanitizer build.",
    note="trusted: the specification tables (subject of C18/C19) for typing the reference tree; the harness's own XML reader/writer; comment/whitespace semantics as documented by the crate", ref="5/C01"),
- "C02": dict(engine="DOC", technique="runtime monitor: crash/panic/abort observer over hostile byte strings in child processes, error-line range oracle, check_buffer⊇load oracle; Miri/ASan on a sample",
+ "C02": dict(engine="DOC", technique="runtime monitor: crash/panic/abort observer over hostile byte strings in child processes, error-line range oracle, check_buffer⊇load oracle; thorough adds the C02 oracle on short inputs under Miri and an AddressSanitizer rebuild repeating the quick workload",
    text="Exhaustive short strings over an XML token alphabet, structure-aware mutations of valid documents for all versions, random bytes and pathological nesting are pushed through load_buffer (strict, lenient) and check_buffer with a panic hook and process-exit monitor; every error/warning line is range-checked.",
    note="stuck inputs are judged by a logical progress criterion, never by wall clock alone; deep nesting runs in child processes", ref="5/C02"),
  "C03": dict(engine="HIST", technique="runtime invariant monitor (tree shape, iterators agree, stale handles fail) after every call of generated API histories",
-   text="After every call of enumerated-short and random-long histories the full tree-shape monitor walks the model and compares parent/position/model/iterators; stale handles are probed with every place-dependent request and must fail without changing the live model.",
+   text="After every call of seeded random histories (30-60 calls plus growth steps, 1-3 models, 1-4 files, incl. unsorted/partial/failing merges) the full tree-shape monitor walks the model and compares parent/position/model/iterators; stale handles are probed with every place-dependent request and must fail without changing the live model. Thorough adds a small API tour with the same monitors under Miri.",
    note="histories are generated, not exhaustive beyond the stated bound; trusted: harness bookkeeping of live/stale handles by its own tree walk", ref="5/C03"),
  "C04": dict(engine="HIST", technique="runtime invariant monitor: path index ≡ tree-derived path map after every call",
-   text="After every call and load, the path index observed through get_element_by_path/identifiable_elements/path is compared with a map derived independently from the tree (item names of identifiable ancestors), including negative probes of near-miss keys.",
+   text="After every call and load, the path index observed through get_element_by_path/identifiable_elements/path is compared with a map derived independently from the tree (item names of identifiable ancestors), including negative probes of near-miss keys. Thorough repeats the quick workload in an AddressSanitizer build.",
    note="expected map is derived from content()/item_name() only", ref="5/C04"),
  "C05": dict(engine="HIST", technique="runtime invariant monitor: reverse reference map (hook accessor + public API) ≡ tree-derived referrer multiset; check_references oracle",
-   text="After every call the referrer lists (all keys via the read-only hook, plus get_references_to) are compared with the multiset of reference elements found by walking the tree; check_references and get_reference_target are compared with an independent resolution.",
+   text="After every call the referrer lists (all keys via the read-only hook, plus get_references_to) are compared with the multiset of reference elements found by walking the tree; check_references and get_reference_target are compared with an independent resolution. Thorough repeats the quick workload in an AddressSanitizer build.",
    note="uses hook verif_reference_origins(); dead weak entries are not judged", ref="5/C05"),
  "C06": dict(engine="HIST", technique="runtime pre/post monitor around rename/move: same-target-object oracle over the whole reference graph",
    text="Before each rename/move the harness resolves every reference to its target object with its own index; afterwards references that designated the renamed/moved element or its descendants must designate the same objects, all others keep their text.",
@@ -36,36 +36,36 @@ P = {
    text="On API-built models over all element types and versions the insertion range, create-at success and allowed-list are compared with a pairwise reference order model; serialized output is re-validated by the lenient loader and compared with the original content.",
    note="order model uses find_common_group/multiplicity tables of the specification crate (trusted, subject of C18)", ref="5/C07"),
  "C08": dict(engine="DOC", technique="runtime differential monitor strict vs lenient; single-defect injection with table-derived expectation",
-   text="Every input of the DOC corpora is loaded in both modes and the outcomes are compared (Ok⇔Ok+no warnings, first warning = strict error, same model); documents with exactly one injected, table-derived constraint violation must be rejected by strict loading.",
+   text="Every input of the DOC corpora is loaded in both modes and the outcomes are compared (Ok⇔Ok+no warnings, first warning = strict error, same model); documents with exactly one injected, table-derived constraint violation must be rejected by strict loading. Thorough repeats the quick workload in an AddressSanitizer build.",
    note="only injections whose illegality is computed from the specification tables are judged", ref="5/C08"),
  "C09": dict(engine="DOC", technique="runtime monitor: split-a-master generator, all load orders, union/attribution/projection oracles",
-   text="Random master models are split at splittable points into 2-4 files with shuffled sibling order; every load order must give the master's content, the assigned file sets, per-file projections and order-independent merged content.",
+   text="Random master models are split at splittable points into 2-4 files with shuffled sibling order; every load order must give the master's content, the assigned file sets, per-file projections and order-independent merged content. Thorough repeats the quick workload in an AddressSanitizer build.",
    note="value conflicts between files are outside the precondition and not generated", ref="5/C09"),
  "C10": dict(engine="HIST", technique="runtime invariant monitor of file membership after every call; per-file text vs projection; remove_file delta oracle",
-   text="After every call of file-set histories on 1-4 file models the membership invariants, per-file serialization vs projection and self-containedness are checked; remove_file must remove exactly the elements attributed to that file alone.",
+   text="After every call of file-set histories on 1-4 file models the membership invariants, per-file serialization vs projection and self-containedness are checked; remove_file must remove exactly the elements attributed to that file alone. Thorough repeats the quick workload in an AddressSanitizer build.",
    note="per-file text is read back with the crate's own lenient loader and compared with the harness projection", ref="5/C10"),
  "C11": dict(engine="HIST", technique="runtime monitor: full-state snapshot before/after every failing call (hostile-argument generator)",
    text="A canonical snapshot (tree with values, files, membership, path index, referrer lists via hook) is taken before every call; whenever the call returns Err the snapshot afterwards must be identical.",
    note="disk writes excluded; snapshot covers what the property calls observable", ref="5/C11"),
- "C12": dict(engine="HIST", technique="runtime monitor: catch_unwind + child-process crash observer + single-thread self-deadlock detector in the lock shim",
+ "C12": dict(engine="HIST", technique="runtime monitor: catch_unwind + single-thread self-deadlock detector in the lock shim (+ Miri on a small API tour in thorough); process aborts on deep models are observed by the child processes of C02",
    text="The whole public API is driven with hostile arguments and stale/foreign handles on generated, loaded (lenient) and merged models; panics, aborts, unsatisfiable blocking lock requests by the only thread and ParentElementLocked results are violations.",
    note="a hang is decided logically by the lock monitor (request conflicts with the requester's own holdings), not by timeouts", ref="5/C12"),
  "C13": dict(engine="HIST", technique="runtime monitor: copy-vs-source structural diff, independent version filter, independence by snapshot",
-   text="Around every deep copy the copy is compared structurally with its source (same version: identical up to the name suffix; other version: exactly the permitted parts), indexes are checked, and after duplicate() edits of one side must leave the other side's snapshot unchanged.",
+   text="Around every deep copy the copy is compared structurally with its source (same version: identical up to the name suffix; other version: exactly the permitted parts), indexes are checked, and after duplicate() edits of one side must leave the other side's snapshot unchanged. Thorough repeats the quick workload in an AddressSanitizer build.",
    note="permitted-in-version is computed by an independent walk over the specification tables", ref="5/C13"),
  "C14": dict(engine="HIST", technique="runtime monitor around sort: multiset preservation, idempotence, permutation independence",
-   text="Around sort() the children multiset at every element, order where reordering is forbidden, idempotence and independence of the initial sibling permutation are checked, together with the structural monitors.",
+   text="Around sort() the children multiset at every element, order where reordering is forbidden, idempotence and independence of the initial sibling permutation are checked, together with the structural monitors. Thorough repeats the quick workload in an AddressSanitizer build.",
    note="siblings identical up to comments are identified, as the property allows", ref="5/C14"),
- "C15": dict(engine="SCHED", technique="runtime lock-event monitor + serialising scheduler over real threads (deadlock = no enabled thread), confirmed on real parking_lot",
-   text="Pairs/triples of public operations run on real threads; every lock acquisition is a scheduling point decided by a bounded-preemption/PCT/random scheduler over a model of parking_lot's RwLock; a state with unfinished threads and none enabled is a deadlock, confirmed with genuine blocking calls.",
+ "C15": dict(engine="SCHED", technique="runtime lock-event monitor + serialising scheduler over real threads running the real code (deadlock = unfinished threads, none enabled); lock model validated against the real parking_lot lock on every grant; thorough adds free-running pairs under Miri",
+   text="Pairs/triples of public operations run on real threads; every lock acquisition is a scheduling point decided by a bounded-deviation depth-first / random scheduler over a model of parking_lot's RwLock (lazy and eager timeouts of the timed requests); a state with unfinished threads and none enabled is a deadlock. Every request the model grants is executed with try_* on the real lock and must succeed (a mismatch makes the run inconclusive).",
    note="restated as bounded progress; lock model derived from parking_lot 0.12 raw_rwlock.rs", ref="5/C15"),
  "C16": dict(engine="SCHED", technique="runtime monitor: outcome ∈ {sequential orders} per explored schedule + structural monitors after join",
    text="For each explored schedule of an operation pair the returned values and final snapshot must equal those of some sequential order (or an order without the operations that returned ParentElementLocked).",
    note="schedules explored at lock-acquisition granularity up to a preemption bound", ref="5/C16"),
  "C17": dict(engine="DOC", technique="runtime differential monitor: check_version_compatibility/set_version vs relabel-and-strict-load oracle over version pairs",
-   text="For documents containing version-dependent elements/attributes/enum values and all target versions the compatibility verdict, the mask and set_version are compared with strict loading of the relabelled text.",
+   text="For documents containing version-dependent elements/attributes/enum values and all target versions the compatibility verdict, the mask and set_version are compared with strict loading of the relabelled text. Thorough repeats the quick workload in an AddressSanitizer build.",
    note="precondition: the document loads strictly under its own version", ref="5/C17"),
- "C18": dict(engine="TABLE", technique="runtime exhaustive table sweep: listings parsed from source vs lookups; neighbour non-members; Miri on the transmute lookups (thorough)",
+ "C18": dict(engine="TABLE", technique="runtime exhaustive table sweep: listings parsed from source vs lookups; neighbour non-members; thorough adds a seeded sample of the transmute lookups under Miri",
    text="All names/items/versions listed in the generated sources are round-tripped through the lookups, every (type, listed sub-element/attribute, version) is looked up, all reference×named type pairs are checked, and all one-edit neighbours plus random strings must be rejected. The finite member domains are enumerated completely.",
    note="trusted: build.rs text parser of the generated enum sources; sub_element_spec_iter as the listing", ref="5/C18"),
  "C19": dict(engine="TABLE", technique="runtime differential monitor: validator vs independent regex engine (NFA/DFA) on bounded-exhaustive and automaton-derived strings",
@@ -109,13 +109,14 @@ man = {
     },
     "engines": [
         {"name": "TABLE", "path": "harness/src/c18.rs harness/src/c19.rs harness/src/c20.rs", "serves_properties": ["C18", "C19", "C20"], "kind_free_text": "exhaustive/bounded table sweeps with independent oracles"},
-        {"name": "HIST", "path": "harness/src/hist", "serves_properties": ["C03", "C04", "C05", "C06", "C07", "C10", "C11", "C12", "C13", "C14"], "kind_free_text": "generated API histories with invariant monitors after every call"},
-        {"name": "DOC", "path": "harness/src/doc", "serves_properties": ["C01", "C02", "C08", "C09", "C17"], "kind_free_text": "generated/mutated documents through load/serialize with reference reader and differential oracles"},
-        {"name": "SCHED", "path": "harness/src/sched", "serves_properties": ["C15", "C16"], "kind_free_text": "lock shim + serialising scheduler over real threads"},
+        {"name": "HIST", "path": "harness/src/hist.rs harness/src/histprops.rs harness/src/histprops2.rs harness/src/monitors.rs harness/src/c07.rs harness/src/c14perm.rs", "serves_properties": ["C03", "C04", "C05", "C06", "C07", "C10", "C11", "C12", "C13", "C14"], "kind_free_text": "generated API histories with invariant monitors after every call"},
+        {"name": "DOC", "path": "harness/src/c01.rs harness/src/c02.rs harness/src/c08.rs harness/src/c09.rs harness/src/c17.rs harness/src/refxml.rs harness/src/docgen.rs", "serves_properties": ["C01", "C02", "C08", "C09", "C17"], "kind_free_text": "generated/mutated documents through load/serialize with reference reader and differential oracles"},
+        {"name": "SAN", "path": "harness/src/san.rs", "serves_properties": ["C01", "C02", "C03", "C04", "C05", "C08", "C09", "C10", "C12", "C13", "C14", "C15", "C17", "C18"], "kind_free_text": "sanitizer add-on of the thorough tiers: Miri on small monitored workloads, AddressSanitizer rebuild repeating the quick workload; reports become violations, tooling problems are recorded and never change a verdict"},
+        {"name": "SCHED", "path": "harness/src/sched.rs harness/src/schedprops.rs harness/src/lockmon.rs", "serves_properties": ["C15", "C16"], "kind_free_text": "lock shim + serialising scheduler over real threads"},
     ],
     "checks": checks,
     "not_applicable": na,
-    "notes": "All checks: ./check <id> quick|thorough; exit 0 held, 1 VIOLATION, 2 INCONCLUSIVE. Known findings: /verif/known-findings.txt. VERIF_SEED selects the random stream.",
+    "notes": "All checks: ./check <id> quick|thorough; exit 0 held, 1 VIOLATION, 2 INCONCLUSIVE. Known findings: /verif/known-findings.txt. VERIF_SEED selects the random stream. ./check <id> replay <file> re-executes a recorded violation. VERIF_NO_SAN=1 switches the sanitizer add-on of the thorough tiers off.",
 }
 json.dump(man, open("/verif/MANIFEST.json", "w"), indent=1)
 print("wrote MANIFEST.json:", len(checks), "checks;", len(na), "not applicable")
